@@ -40,6 +40,9 @@ FACTORS = OrderedDict([
   ("c3/5+-4/5j", ([1, F(-6, 5), 1], False)),       # on the unit circle
   ("c1+-1j", ([1, -2, 2], False)),                 # |root|^2 = 2
   ("c-2/5+-1/5j", ([1, F(4, 5), F(1, 5)], True)),
+  # real roots a hair inside / outside the circle
+  ("r1-1e-15", ([1, -(1 - F(1, 10 ** 15))], True)), ("r-1+1e-15", ([1, 1 - F(1, 10 ** 15)], True)),
+  ("r1+1e-15", ([1, -(1 + F(1, 10 ** 15))], False)),
 ])
 
 
@@ -60,6 +63,15 @@ def gen_reflection(run):
         continue
       for g in (GAINS if p <= 3 else GAINS[:2]):
         yield (list(ks), g)
+  # coefficients a hair away from the circle (exact rationals: not equal to 1, so no error is due)
+  near = ["999999999999999/1000000000000000", "-999999999999999/1000000000000000",
+          "1000000000000001/1000000000000000", "-1000000000000000001/1000000000000000000"]
+  for k in near:
+    for g in GAINS[:2]:
+      yield ([k], g)
+      yield (["1/2", k], g)
+      yield ([k, "1/3"], g)
+      yield (["-1/3", k, "1/2"], g)
   # high orders (a handful, not exhaustive): 8, 12, 20 and 33 coefficients
   base = ["1/2", "-1/3", "1/3", "-1/2", "1/3", "0", "-1/3", "1/2", "-1/2", "1/3", "0", "1/2"]
   for p in (8, 12, 20, 33):
@@ -136,8 +148,9 @@ def run_reflection(case):
       return bad("parcor:value", "parcor does not return the reflection coefficients, last first", exp, got, nt)
     if lpcref.step_up(got[::-1]) != a:
       return bad("parcor:rebuild", "stepping the coefficients up again does not rebuild the filter", a, got, nt)
-  # through levinson_durbin when the vector is a valid autocorrelation recursion (|k| < 1)
-  if all(abs(k) < 1 for k in ks):
+  # through levinson_durbin whenever the recursion does not divide by zero (no |k| = 1): with some
+  # |k| > 1 the "autocorrelation" is indefinite and the error may be negative - still the same algebra
+  if all(abs(k) != 1 for k in ks):
     r = lpcref.acorr_from_reflection(ks, F(3, 2))
     filt = levinson_durbin([Q(v) for v in r])
     got = [fr(k) for k in parcor(filt)]
@@ -171,7 +184,8 @@ def gen_roots(run):
           yield (list(combo), g, num, "Q")
         # the same denominators with plain fractions.Fraction coefficients (no absorbing
         # number class): float decay inside the library would lose exactness here
-        yield (list(combo), g, "1", "Fraction")
+        if not any("1e-15" in c for c in combo):     # (plain Fractions meet floats inside the library: a 1e-30 margin is not decidable there)
+          yield (list(combo), g, "1", "Fraction")
 
 
 def run_roots(case):
